@@ -55,6 +55,13 @@ def main():
   for rpc in job['prefix']:
     svc.apply_rpc(serv, holder, fix_rpc(rpc))
   engine = proxy._inner._engine
+  # SQLite's commit is atomic whatever the size of its page cache.  A one-page cache makes a transaction write its dirty pages
+  # into the database file before COMMIT - as a study with thousands of trials does with the default cache - which only a
+  # rollback journal that outlives the process can undo.
+  try:
+    proxy._inner._connection.exec_driver_sql('PRAGMA cache_size=1')
+  except Exception:  # pylint: disable=broad-except
+    pass
   state = {'n': 0}
   k = job['k']
 
